@@ -1034,7 +1034,7 @@ func NewEvent(mach *Machine, machApi Api) *Event {
 
 // Mutation returns the Mutation of an Event.
 func (e *Event) Mutation() *Mutation {
-	t := e.Machine().Transition()
+	t := e.Transition()
 	if t == nil {
 		return nil
 	}
@@ -1057,6 +1057,9 @@ func (e *Event) Transition() *Transition {
 // IsValid confirm this event should still be processed. Useful for negotiation
 // handlers, which can't use state context.
 func (e *Event) IsValid() bool {
+	if e == nil {
+		return false
+	}
 	tx := e.Transition()
 	if tx == nil {
 		return false
@@ -1105,12 +1108,16 @@ func (e *Event) SwapArgs(args A) *Event {
 }
 
 func (e *Event) String() string {
+	mut := e.Mutation()
+	if mut == nil {
+		return e.Name
+	}
 	mach := e.Machine()
 	if mach == nil {
-		return e.Mutation().String()
+		return mut.String()
 	}
 
-	return e.Mutation().StringFromIndex(mach.StateNames())
+	return mut.StringFromIndex(mach.StateNames())
 }
 
 // ///// ///// /////
